@@ -30,13 +30,13 @@ type MObs struct {
 
 // MQuery is an open query slot.
 type MQuery struct {
-	Open    bool
-	Spec    FSpec
-	SF      int
-	Cached  bool
-	QRels   []RelT
-	Expect  []EID // expected result set at open time (world is frozen while open)
-	Steps   int
+	Open   bool
+	Spec   FSpec
+	SF     int
+	Cached bool
+	QRels  []RelT
+	Expect []EID // expected result set at open time (world is frozen while open)
+	Steps  int
 }
 
 // Model is the sequential reference model of a world.
@@ -85,18 +85,18 @@ func (m *Model) Select(f *FSpec, qrels []RelT) []EID {
 
 // Exp is the planned effect of an operation.
 type Exp struct {
-	Op       *Op
-	Panic    bool // the call must panic and change nothing
-	NewE     []EID
-	NewState []MEnt
-	Sel      []EID        // batch selection
-	Post     map[EID]MEnt // post-state of changed pre-existing entities
-	Dead     []EID
-	Events   []MEvent
-	CbMay    bool // batch callback for selected-but-unchanged entities is optional (SetRelBatch)
-	Unchanged map[EID]bool // selected entities that the op leaves unchanged
+	Op         *Op
+	Panic      bool // the call must panic and change nothing
+	NewE       []EID
+	NewState   []MEnt
+	Sel        []EID        // batch selection
+	Post       map[EID]MEnt // post-state of changed pre-existing entities
+	Dead       []EID
+	Events     []MEvent
+	CbMay      bool         // batch callback for selected-but-unchanged entities is optional (SetRelBatch)
+	Unchanged  map[EID]bool // selected entities that the op leaves unchanged
 	Structural bool
-	LockedCb bool // batch callbacks / after-events run with the world locked
+	LockedCb   bool // batch callbacks / after-events run with the world locked
 }
 
 // PostOf returns the post state of an entity under this plan.
